@@ -45,6 +45,9 @@ WITNESSES = ("WitnessMergeCarried", "WitnessCrissCross", "WitnessDiverged")
 SFMTS = ("2a", "pack-0.92")
 NPAT = 6
 EXOTIC = (None, "mlprop", "kind")
+# how much of the exported case table is replayed (histories; tamper positions, directive cases, merged combinations per history)
+SIZES = {"quick": dict(small=13, four=30, exotic=6, ntamper=2, nmd=2, nmerge=1),
+         "thorough": dict(five=150, exotic=40, ntamper=3, nmd=3, nmerge=2)}
 
 
 def gen_cfg(maxrev, inv=("LawsHoldOnSpec",)):
@@ -253,7 +256,7 @@ def tamper_v4(data, raw, head, level, pos):
     return data[:head] + bz2.compress(_sub(raw, pos))
 
 
-def guarded(fn, cpu_limit=3.0, wall_limit=300.0):
+def guarded(fn, cpu_limit=1.5, wall_limit=600.0):
     """Run fn() in a forked child and return its (JSON-able) result, or ["hang", ...] when the child burns more than
     cpu_limit seconds of CPU without finishing (a damaged container can send bzrformats' pack reader into a busy loop that
     no Python-level watchdog can interrupt).  CPU time, not wall time, so that a loaded machine does not fake a hang."""
@@ -404,7 +407,8 @@ class Job:
             def attempt(bad=bad):
                 res = self.install(bad, base)
                 return [self.classify(st, res), res[2] or ""]
-            outcome, detail = guarded(attempt)
+            # a damaged bz2 stream can send the container reader into a busy loop: those installs run under the watchdog
+            outcome, detail = guarded(attempt) if name.startswith("bz2-") else attempt()
             o["tamper"].append({"section": name, "outcome": outcome, "pos": list(where) if fmt == "4" else where, "detail": detail})
         return o, info
 
@@ -528,7 +532,7 @@ class Job:
                             raise
                         except BaseException as e:      # noqa: BLE001
                             return ["rejected", type(e).__name__]
-                    outcome, detail = guarded(attempt)
+                    outcome, detail = attempt()       # install_revisions(stream_input=False): a cut stream raises
                     o["bundleTamper"].append({"section": "base64-text", "outcome": outcome, "pos": pos, "detail": detail})
             # ---- merging by the directive vs merging from the branch
             if do_merge:
@@ -722,23 +726,23 @@ def run(ctx):
     five = [h for h in hists if len(h["P"]) == 5]
     ctx.rng.shuffle(four)
     ctx.rng.shuffle(five)
-    plans = []          # (hist, pat, exotic, sfmt, all md cases?)
+    plans = []          # (hist, pat, exotic, sfmt)
+    z = SIZES[ctx.tier]
     if ctx.quick:
-        chosen = small + four[:30]
+        chosen = small[:z["small"]] + four[:z["four"]]
         for j, h in enumerate(chosen):
             plans.append((h, j % NPAT, None, SFMTS[j % 2]))
-        for j, h in enumerate(four[30:36]):
+        for j, h in enumerate(four[z["four"]:z["four"] + z["exotic"]]):
             plans.append((h, j % NPAT, EXOTIC[1 + j % 2], SFMTS[(j // 2) % 2]))
-        ntamper, nmd, nmerge = 2, 2, 1
     else:
         for h in small + four:
             for pat in range(NPAT):
                 plans.append((h, pat, None, SFMTS[(pat + h["idx"]) % 2]))
-        for j, h in enumerate(five[:150]):
+        for j, h in enumerate(five[:z["five"]]):
             plans.append((h, j % NPAT, None, SFMTS[j % 2]))
-        for j, h in enumerate(four[:20] + five[150:170]):
+        for j, h in enumerate(four[:z["exotic"] // 2] + five[z["five"]:z["five"] + z["exotic"] // 2]):
             plans.append((h, j % NPAT, EXOTIC[1 + j % 2], SFMTS[(j // 2) % 2]))
-        ntamper, nmd, nmerge = 3, 3, 2
+    ntamper, nmd, nmerge = z["ntamper"], z["nmd"], z["nmerge"]
     with_bundle = [m for m in combos if m["bundle"]]
     without = [m for m in combos if not m["bundle"]]
     jobs = []
@@ -766,8 +770,8 @@ def run(ctx):
              "pack-0.92; every (base, target) x {4, 0.9}; %d directive cases per history x 12 field combinations, %d of them "
              "merged both ways; %d tamper positions per case; non-trivial = more than one carried revision or a carried "
              "merge (bundles), merged directive cases" % (
-                 maxrev, "all graphs <= 3 and a seeded sample of 36 four-revision graphs" if ctx.quick else
-                 "all graphs <= 4 with all six schedules and a seeded sample of 170 five-revision graphs", nmd, nmerge + 1, ntamper))
+                 maxrev, "all graphs <= 3 and a seeded sample of %d four-revision graphs" % (z["four"] + z["exotic"]) if ctx.quick else
+                 "all graphs <= 4 with all six schedules and a seeded sample of %d five-revision graphs" % (z["five"] + z["exotic"] // 2), nmd, nmerge + 1, ntamper))
     ctx.assume("a directive's patch is compared after normalising line endings and trailing blanks (by design); tampering "
                "substitutes alphanumeric bytes only")
     for r in (rows[len(rows) // 3], rows[-1]):
